@@ -42,6 +42,9 @@ type selCase struct {
 
 type thread struct {
 	id      int
+	cid     uint64 // canonical identity: derived from the spawn path, not from timing
+	nspawn  uint64
+	nchan   uint64
 	wake    chan struct{}
 	op      opKind
 	ch      *chanModel
@@ -61,7 +64,11 @@ type thread struct {
 }
 
 type chanModel struct {
+	owner  *thread // the only thread that has touched the channel so far (nil: shared)
+	shared bool
+	ref    any // pins the real channel so its address cannot be reused within the execution
 	id     int
+	cid    uint64 // canonical identity: creator thread + its creation counter
 	cap    int
 	buf    []any
 	closed bool
@@ -79,6 +86,7 @@ type Result struct {
 	Deadlock  bool
 	Livelock  bool
 	Pruned    string
+	Blocked   []string // at a deadlock: what every unfinished thread waits for
 	Panic     any
 	PanicThr  int
 	Steps     int
@@ -101,12 +109,22 @@ type Sched struct {
 	gomax    int
 	pools    []*PoolModel
 	onPoint  func(s *Sched) // optional hook called at every scheduling point (state keys)
+	digest   func(v any) uint64
+	epoch    uint64
+	npool    uint64
+	localOpt bool
 }
 
 var (
 	active   *Sched
 	activeMu sync.Mutex
-	allPools []*PoolModel
+	epoch    uint64
+)
+
+// DebugEnabled makes pick describe the enabled set in LastEnabled (divergence diagnosis).
+var (
+	DebugEnabled bool
+	LastEnabled  string
 )
 
 type abortSentinel struct{}
@@ -120,6 +138,13 @@ type Options struct {
 	Log        bool
 	GOMAXPROCS int
 	OnPoint    func(s *Sched)
+	// Digest maps a value passing through a channel (or a pool answer) to a number that
+	// identifies it for state keys; nil = values do not enter the key.
+	Digest func(v any) uint64
+	// LocalOpt: no scheduling point before an operation on a channel that only the current
+	// thread has touched so far, nor before atomic operations (coarser atomic steps; every
+	// order of operations that two threads can both observe stays reachable).
+	LocalOpt bool
 }
 
 // Run executes body as managed thread 0 under the chooser and returns when every managed
@@ -127,7 +152,7 @@ type Options struct {
 func Run(ch Chooser, o Options, body func()) Result {
 	activeMu.Lock()
 	defer activeMu.Unlock()
-	s := &Sched{chooser: ch, chans: map[uintptr]*chanModel{}, maxSteps: o.MaxSteps, done: make(chan struct{}), logOn: o.Log, gomax: o.GOMAXPROCS, onPoint: o.OnPoint}
+	s := &Sched{chooser: ch, chans: map[uintptr]*chanModel{}, maxSteps: o.MaxSteps, done: make(chan struct{}), logOn: o.Log, gomax: o.GOMAXPROCS, onPoint: o.OnPoint, digest: o.Digest, localOpt: o.LocalOpt}
 	if s.maxSteps == 0 {
 		s.maxSteps = 1 << 20
 	}
@@ -135,11 +160,10 @@ func Run(ch Chooser, o Options, body func()) Result {
 		s.gomax = 4
 	}
 	s.res.MaxQueued = map[int]int{}
-	for _, p := range allPools {
-		p.items = p.items[:0]
-	}
+	epoch++
+	s.epoch = epoch
 	active = s
-	t := &thread{id: 0, wake: make(chan struct{}, 1)}
+	t := &thread{id: 0, cid: 0x51ed270b1, wake: make(chan struct{}, 1)}
 	s.threads = append(s.threads, t)
 	s.cur = t
 	go s.runThread(t, body)
@@ -193,19 +217,58 @@ func cur() (*Sched, *thread) {
 	return s, s.cur
 }
 
-func (s *Sched) chanOf(c any) *chanModel {
+func (s *Sched) chanOf(c any) *chanModel { return s.chanOfNew(c, false) }
+
+func (s *Sched) chanOfNew(c any, fresh bool) *chanModel {
 	v := reflect.ValueOf(c)
 	p := v.Pointer()
 	if p == 0 {
 		return nil // nil channel: blocks forever
 	}
 	m := s.chans[p]
-	if m == nil {
-		m = &chanModel{id: s.nchan, cap: v.Cap()}
+	if m == nil || fresh {
+		m = &chanModel{ref: c, id: s.nchan, cap: v.Cap()}
+		if t := s.cur; t != nil {
+			t.nchan++
+			m.cid = mix(t.cid^0xc4a9, t.nchan)
+		}
 		s.nchan++
 		s.chans[p] = m
 	}
 	return m
+}
+
+// private reports whether ch has been touched by t alone (and marks the touch).
+func (s *Sched) private(ch *chanModel, t *thread) bool {
+	if ch == nil {
+		return false
+	}
+	if ch.shared {
+		return false
+	}
+	if ch.owner == nil {
+		ch.owner = t
+	} else if ch.owner != t {
+		ch.shared = true
+		return false
+	}
+	return s.localOpt
+}
+
+func mix(a, b uint64) uint64 {
+	x := (a ^ (b + 0x9e3779b97f4a7c15)) * 0xbf58476d1ce4e5b9
+	x ^= x >> 27
+	x *= 0x94d049bb133111eb
+	return x ^ x>>31
+}
+
+// MakeChan registers a freshly made channel under the creating thread (rewritten code wraps
+// every make(chan ...) in it), so channel identities do not depend on who uses it first.
+func MakeChan[C any](c C) C {
+	if s := active; s != nil {
+		s.chanOfNew(c, true)
+	}
+	return c
 }
 
 func (s *Sched) log(t *thread, what string, ch *chanModel) {
@@ -335,6 +398,7 @@ func (s *Sched) point(t *thread) {
 	next := s.pick(t)
 	if next == nil {
 		s.res.Deadlock = true
+		s.res.Blocked = s.describeBlocked()
 		s.abort()
 		panic(abortSentinel{})
 	}
@@ -346,6 +410,24 @@ func (s *Sched) point(t *thread) {
 			panic(abortSentinel{})
 		}
 	}
+}
+
+// choose asks the explorer. If the explorer ends the execution (state pruning, replay
+// divergence) the execution is marked aborted BEFORE the stack unwinds, so that deferred
+// calls of the code under test cannot reach further scheduling points.
+func (s *Sched) choose(n int, preempt bool, kind string) int {
+	defer func() {
+		if r := recover(); r != nil {
+			if a, ok := r.(Abort); ok {
+				s.res.Pruned = a.Reason
+			} else if s.res.Panic == nil {
+				s.res.Panic = fmt.Sprintf("%v", r)
+			}
+			s.abort()
+			panic(abortSentinel{})
+		}
+	}()
+	return s.chooser.Choose(n, preempt, kind)
 }
 
 // pick chooses the next thread among the enabled ones (canonical order: the running thread
@@ -367,7 +449,13 @@ func (s *Sched) pick(running *thread) *thread {
 	case 1:
 		return en[0]
 	}
-	i := s.chooser.Choose(len(en), curEnabled, "sched")
+	if DebugEnabled {
+		LastEnabled = ""
+		for _, t := range en {
+			LastEnabled += fmt.Sprintf("[t%d op=%d handed=%v ev=%d]", t.id, t.op, t.handed, t.events)
+		}
+	}
+	i := s.choose(len(en), curEnabled, "sched")
 	if i < 0 || i >= len(en) {
 		panic(fmt.Sprintf("vsched: chooser returned %d of %d", i, len(en)))
 	}
@@ -380,7 +468,23 @@ func (s *Sched) threadExit(t *thread) {
 		s.wakeNextAborted()
 		return
 	}
-	next := s.pick(nil)
+	var next *thread
+	pruned := false
+	func() {
+		defer func() {
+			if r := recover(); r != nil {
+				if _, ok := r.(abortSentinel); !ok {
+					panic(r)
+				}
+				pruned = true
+			}
+		}()
+		next = s.pick(nil)
+	}()
+	if pruned {
+		s.wakeNextAborted()
+		return
+	}
 	if next == nil {
 		alive := false
 		for _, o := range s.threads {
@@ -393,6 +497,7 @@ func (s *Sched) threadExit(t *thread) {
 			return
 		}
 		s.res.Deadlock = true
+		s.res.Blocked = s.describeBlocked()
 		s.abort()
 		s.wakeNextAborted()
 		return
@@ -420,8 +525,25 @@ func (s *Sched) finish() {
 	}
 }
 
-// Blocked lists, for a deadlock report, what every unfinished thread waits for.
-func (s *Sched) describe() string { return "" }
+// describeBlocked lists, for a deadlock report, what every unfinished thread waits for.
+func (s *Sched) describeBlocked() []string {
+	var out []string
+	names := map[opKind]string{opNone: "not started/plain", opSend: "send", opRecv: "recv", opSelect: "select", opWait: "WaitGroup.Wait", opLock: "Lock", opRLock: "RLock", opOnce: "Once.Do", opPlain: "plain"}
+	for _, t := range s.threads {
+		if t.done {
+			continue
+		}
+		d := fmt.Sprintf("thread %d: %s", t.id, names[t.op])
+		if t.ch != nil && (t.op == opSend || t.op == opRecv) {
+			d += fmt.Sprintf(" on chan %d (len %d cap %d closed %v)", t.ch.id, len(t.ch.buf), t.ch.cap, t.ch.closed)
+		}
+		if t.handed {
+			d += " [handed]"
+		}
+		out = append(out, d)
+	}
+	return out
+}
 
 // ---- public operations (called by rewritten code) ----
 
@@ -432,7 +554,8 @@ func Go(f func()) {
 		go f()
 		return
 	}
-	n := &thread{id: len(s.threads), wake: make(chan struct{}, 1)}
+	t.nspawn++
+	n := &thread{id: len(s.threads), cid: mix(t.cid, t.nspawn), wake: make(chan struct{}, 1)}
 	s.threads = append(s.threads, n)
 	go s.runThread(n, f)
 	s.log(t, "spawn", nil)
@@ -540,6 +663,12 @@ func SendAny(c any, v any) bool {
 		return false
 	}
 	ch := s.chanOf(c)
+	if s.private(ch, t) && ch != nil && !ch.closed && len(ch.buf) < ch.cap {
+		ch.buf = append(ch.buf, v)
+		s.noteQueue(ch)
+		s.log(t, "send(local)", ch)
+		return true
+	}
 	t.op, t.ch, t.val, t.handed = opSend, ch, v, false
 	s.point(t)
 	if t.handed {
@@ -558,6 +687,13 @@ func RecvAny(c any) (v any, ok bool, managed bool) {
 		return nil, false, false
 	}
 	ch := s.chanOf(c)
+	if s.private(ch, t) && ch != nil && len(ch.buf) > 0 {
+		v = ch.buf[0]
+		ch.buf = ch.buf[1:]
+		s.log(t, "recv(local)", ch)
+		s.observe(t, v, true)
+		return v, true, true
+	}
 	t.op, t.ch, t.handed = opRecv, ch, false
 	s.point(t)
 	if t.handed {
@@ -570,10 +706,36 @@ func RecvAny(c any) (v any, ok bool, managed bool) {
 	// refers to (an index-buffer slot, a pooled buffer) but has not used it yet. Without
 	// it the use would be glued to the receive and a writer overtaking the receiver
 	// (unsynchronised reuse of that memory) could never be interleaved in between.
+	s.observe(t, v, ok)
 	t.op = opPlain
 	s.point(t)
 	t.op = opNone
 	return v, ok, true
+}
+
+// observe folds a value a thread obtained from the environment into its observation hash.
+func (s *Sched) observe(t *thread, v any, ok bool) {
+	x := uint64(0x9e3779b97f4a7c15)
+	if !ok {
+		x = 0x1234567
+	} else if s.digest != nil {
+		x ^= s.digest(v)
+	}
+	t.obsHash = (t.obsHash ^ x) * 1099511628211
+	t.obsHash ^= t.obsHash >> 31
+}
+
+// ChanID gives the model identity of a channel (for digests of channels sent over channels).
+func ChanID(c any) uint64 {
+	s := active
+	if s == nil {
+		return 0
+	}
+	m := s.chanOf(c)
+	if m == nil {
+		return 0
+	}
+	return m.cid
 }
 
 func CloseAny(c any) bool {
@@ -630,7 +792,9 @@ func SelectAny(hasDefault bool, cases []*SelCase) (int, bool) {
 		i := t.selIdx
 		if !cases[i].Send {
 			cases[i].RecvVal, cases[i].RecvOK = t.recvVal, t.recvOK
+			s.observe(t, t.recvVal, t.recvOK)
 		}
+		s.observe(t, i, true)
 		return i, true
 	}
 	t.op = opNone
@@ -645,11 +809,12 @@ func SelectAny(hasDefault bool, cases []*SelCase) (int, bool) {
 			panic("vsched: select scheduled although not enabled")
 		}
 		s.log(t, "select(default)", nil)
+		s.observe(t, -1, true)
 		return -1, true
 	}
 	k := 0
 	if len(ready) > 1 {
-		k = s.chooser.Choose(len(ready), false, "select")
+		k = s.choose(len(ready), false, "select")
 	}
 	i := ready[k]
 	c := t.cases[i]
@@ -657,7 +822,9 @@ func SelectAny(hasDefault bool, cases []*SelCase) (int, bool) {
 		s.doSend(t, c.ch, c.val)
 	} else {
 		cases[i].RecvVal, cases[i].RecvOK = s.doRecv(t, c.ch)
+		s.observe(t, cases[i].RecvVal, cases[i].RecvOK)
 	}
+	s.observe(t, i, true)
 	return i, true
 }
 
@@ -776,16 +943,29 @@ func (o *OnceModel) Do(f func()) {
 }
 
 type PoolModel struct {
-	New        func() any
-	items      []any
-	registered bool
+	New   func() any
+	items []any
+	epoch uint64
+	cid   uint64
 }
 
+// reg attaches the pool to the running execution: pools are emptied at the start of every
+// execution (a real sync.Pool may drop its contents at any time) and identified by the
+// order in which the execution first touches them on the touching thread.
 func (p *PoolModel) reg() {
-	if !p.registered {
-		p.registered = true
-		allPools = append(allPools, p)
+	s := active
+	if s == nil || p.epoch == s.epoch {
+		return
 	}
+	p.epoch = s.epoch
+	p.items = p.items[:0]
+	var tc uint64
+	if s.cur != nil {
+		tc = s.cur.cid
+	}
+	s.npool++
+	p.cid = mix(tc^0x9001, uint64(len(s.pools)))
+	s.pools = append(s.pools, p)
 }
 
 func (p *PoolModel) Get() any {
@@ -796,9 +976,11 @@ func (p *PoolModel) Get() any {
 		s.point(t)
 		if len(p.items) > 0 && p.New != nil {
 			// environment answer: recycled object (default) or a fresh one
-			if s.chooser.Choose(2, false, "pool") == 1 {
+			if s.choose(2, false, "pool") == 1 {
+				s.observe(t, "pool-new", true)
 				return p.New()
 			}
+			s.observe(t, "pool-recycled", true)
 		}
 	}
 	if n := len(p.items); n > 0 {
@@ -825,7 +1007,7 @@ func (p *PoolModel) Put(v any) {
 // AtomicPoint is the scheduling point before an atomic operation.
 func AtomicPoint() {
 	s, t := cur()
-	if s == nil {
+	if s == nil || s.localOpt {
 		return
 	}
 	t.op = opPlain
@@ -874,49 +1056,45 @@ func (s *Sched) Key(extra func(add func(uint64))) uint64 {
 }
 
 // CurrentKey hashes the modelled state of the running execution plus harness extras.
+// Threads and channels enter by canonical identity and are combined commutatively, so two
+// interleavings that reach the same state get the same key.
 func CurrentKey(extra func(add func(uint64))) uint64 {
 	s := active
 	if s == nil {
 		return 0
 	}
-	h := uint64(1469598103934665603)
-	add := func(v uint64) {
-		h ^= v
-		h *= 1099511628211
-		h ^= h >> 29
-	}
-	if s.cur != nil {
-		add(uint64(s.cur.id) + 1000)
-	}
+	var sum uint64
 	for _, t := range s.threads {
-		add(uint64(t.id))
-		add(t.events)
+		h := mix(t.cid, t.events)
+		h = mix(h, uint64(t.op))
 		if t.done {
-			add(0xdead)
+			h = mix(h, 0xdead)
 		}
-		add(uint64(t.op))
 		if t.handed {
-			add(0xface)
+			h = mix(h, 0xface)
 		}
+		h = mix(h, t.obsHash)
+		sum += h
 	}
-	// channels in creation order
-	ids := make([]*chanModel, s.nchan)
+	for _, p := range s.pools {
+		sum += mix(p.cid, uint64(len(p.items)))
+	}
 	for _, c := range s.chans {
-		if c.id < len(ids) {
-			ids[c.id] = c
-		}
-	}
-	for _, c := range ids {
-		if c == nil {
-			continue
-		}
-		add(uint64(len(c.buf)))
+		h := mix(c.cid, uint64(len(c.buf)))
 		if c.closed {
-			add(0xc105ed)
+			h = mix(h, 0xc105ed)
 		}
+		if s.digest != nil {
+			for _, v := range c.buf {
+				h = mix(h, s.digest(v))
+			}
+		}
+		sum += h
 	}
 	if extra != nil {
-		extra(add)
+		h := uint64(1469598103934665603)
+		extra(func(v uint64) { h = mix(h, v) })
+		sum += h
 	}
-	return h
+	return sum
 }
